@@ -328,7 +328,20 @@ class MessageManager(interfaces.TokenInterface, interfaces.MessageManager):
                 break
             if self._backlogs[remote] != []:
                 next_message, messageerror_monitor = self._backlogs[remote].pop(0)
-                self._send_initially(next_message, messageerror_monitor)
+                try:
+                    self._send_initially(next_message, messageerror_monitor)
+                except Exception as e:
+                    # Whoever handed in the message has long returned from
+                    # send_message; the monitor is the only way left to tell
+                    # them. Raising here would instead abort the processing
+                    # of the message that just ended the previous exchange.
+                    self.log.error(
+                        "Held-back message to %s could not be sent: %r",
+                        remote,
+                        e,
+                        exc_info=e,
+                    )
+                    messageerror_monitor()
             else:
                 del self._backlogs[remote]
                 break
